@@ -27,7 +27,7 @@ CLAIMS.update({
         note=COMMON_NOTE + ' C01_local assumes of the stored entry what every entry written by the transport satisfies (parsable Date, status not 304).'),
     'C02': dict(
         text=('Theorems C02_local (answering from the store implies the specification\'s needs_validation is false: unqualified no-cache, '
-              'stale+must-revalidate, request no-cache, exceeded request max-age are never overridden), C02_no_stale_fallback, '
+              'stale+must-revalidate, request no-cache, exceeded request max-age are never overridden), C02_no_stale_fallback, C02_qualified_not_replayed (the three ways a stored response leaves the cache without a successful validation — serveFromCache, the stale-while-revalidate path, the stale-if-error path — carry none of the fields a stored no-cache="..." names, other than the cache\'s own Age and status fields), '
               'C02_mandatory_validation_outcome (mandatory validation that fails returns the origin\'s answer or error, never the stored response), '
               'C02_validation_request (every origin call carries the client\'s method, URL and header fields plus only If-None-Match / '
               'If-Modified-Since from the stored validators; request values are immutable in the model), and at history level C02_history_unvalidated (along EVERY sequential history from an empty store a response returned without contacting the origin is the synthesised 504 or the served form of an entry whose fields and instants are those of origin calls of the history (Src) and which does not need validation by the specification at that instant) and C02_history_validated (a response returned marked REVALIDATED carries the status and body of such an entry, and the origin was contacted in that exchange with exactly the client\'s request plus If-None-Match / If-Modified-Since from that entry\'s validators and answered 304: the call is in the log). Monitor mon_C02 (with age_inputs: what a 304 leaves in the store) on the real transport each run; the runner snapshots the caller\'s request around every RoundTrip and reuses it afterwards.'),
